@@ -118,4 +118,324 @@ theorem compute_score_matrix_eq_model (P Q : Pattern.Pat) (m : String) :
   · have h' : ¬ m = "cardinality_score" := h
     simp [h', h, throw, throwThe, MonadExceptOf.throw]
 
+/-! ## the common prefix: `validate`, the emptiness test -/
+
+theorem validate_raw (ref est : Pattern.Pats) :
+    GenV.pattern.validate (raw ref) (raw est) = Pattern.validate ref est := by
+  rw [Mir.C14.GenVal.pattern_validate_eq_model, Mir.C14.Pattern.validate_agrees]
+
+theorem n_onset_raw (x : Pattern.Pats) : GenV.pattern._n_onset_midi (raw x) = .ok (nOnsetMidi x) := by
+  rw [Mir.C14.GenVal.n_onset_midi_eq]
+  congr 1
+  unfold raw nOnsetMidi
+  induction x with
+  | nil => rfl
+  | cons p ps ih =>
+    simp only [List.map_cons, List.flatMap_cons, List.length_append, List.sum_cons, ih]
+    congr 1
+    induction p with
+    | nil => rfl
+    | cons o os ih2 => simp only [List.map_cons, List.flatMap_cons, List.length_append, List.sum_cons, ih2, List.length_map]
+
+theorem validate_cases (ref est : Pattern.Pats) :
+    Pattern.validate ref est = .ok () ∨ Pattern.validate ref est = .error .valueError := by
+  unfold Pattern.validate; split
+  · exact Or.inr rfl
+  · exact Or.inl rfl
+
+/-- `np.mean(np.max(M, axis=0))`, `np.mean(np.max(M, axis=1))` of a generated matrix are the model's reductions -/
+theorem colMaxMean_mat (r c : Nat) (d : List (List Rat)) :
+    (do let v ← maxAxis0 ⟨r, c, d⟩; npMean v) = colMaxMean c d := rfl
+theorem rowMaxMean_mat (r c : Nat) (d : List (List Rat)) :
+    (do let v ← maxAxis1 ⟨r, c, d⟩; npMean v) = rowMaxMean d := rfl
+
+/-- the last lines of the matrix metrics: both reductions, then a continuation -/
+theorem prf_tail' {α : Type} (r c : Nat) (d : List (List Rat)) (K : Rat → Rat → Py α) :
+    (do let v ← maxAxis0 ⟨r, c, d⟩; let p ← npMean v; let w ← maxAxis1 ⟨r, c, d⟩; let q ← npMean w; K p q)
+      = (do let p ← colMaxMean c d; let q ← rowMaxMean d; K p q) := by
+  rw [← colMaxMean_mat r c d, ← rowMaxMean_mat r c d]
+  cases maxAxis0 ⟨r, c, d⟩ with
+  | error e => rfl
+  | ok v =>
+    cases h : npMean v with
+    | error e => simp [bind, Except.bind, h]
+    | ok p =>
+      cases maxAxis1 ⟨r, c, d⟩ with
+      | error e => simp [bind, Except.bind, h]
+      | ok w => simp [bind, Except.bind, h]
+
+theorem prf_tail (r c : Nat) (d : List (List Rat)) :
+    (do let v ← maxAxis0 ⟨r, c, d⟩; let p ← npMean v; let w ← maxAxis1 ⟨r, c, d⟩; let q ← npMean w
+        (pure (fMeasure p q, p, q) : Py (Rat × Rat × Rat)))
+      = (do let p ← colMaxMean c d; let q ← rowMaxMean d; pure (fMeasure p q, p, q)) :=
+  prf_tail' r c d fun p q => pure (fMeasure p q, p, q)
+
+/-! ## establishment_FPR -/
+
+theorem establishment_FPR_eq_model (ref est : Pattern.Pats) (m : String) :
+    Gen.pattern.establishment_FPR (raw ref) (raw est) m = establishmentFPR ref est m := by
+  unfold Gen.pattern.establishment_FPR establishmentFPR
+  simp only [validate_raw, n_onset_raw]
+  rcases validate_cases ref est with hv | hv <;> rw [hv]
+  swap
+  · rfl
+  simp only [bind, Except.bind, pure, Except.pure, isZero]
+  by_cases h1 : nOnsetMidi ref = 0
+  · simp [h1]
+  by_cases h2 : nOnsetMidi est = 0
+  · simp [h1, h2]
+  have hz : (nOnsetMidi ref == 0 || nOnsetMidi est == 0) = false := by simp [h1, h2]
+  simp only [h1, h2, hz, decide_false, Bool.false_eq_true, if_false]
+  rw [raw_eq, raw_eq, fill2_raw rawPat rawPat ref est _ (fun p q => do let s ← scoreMatrix p q m; maxL s.flatten)]
+  · unfold asMat estMatrix
+    cases (List.mapM (fun x => List.mapM (fun y => do let s ← scoreMatrix x y m; maxL s.flatten) est) ref) with
+    | error e => rfl
+    | ok S => exact prf_tail ref.length est.length S
+  · intro p q
+    show (do let s ← Gen.pattern._compute_score_matrix (rawPat p) (rawPat q) m; _) = _
+    rw [compute_score_matrix_eq_model]
+    cases scoreMatrix p q m <;> rfl
+
+/-! ## three_layer_FPR (closures; `compute_layer` specialised to `layer = 1`, `layer = 2`) -/
+
+theorem first_layer_eq_model (p q : Pattern.Occ) :
+    Gen.pattern.three_layer_FPR.compute_first_layer_PR (rawOcc p) (rawOcc q) = firstLayerPR p q := by
+  unfold Gen.pattern.three_layer_FPR.compute_first_layer_PR firstLayerPR
+  simp only [occurrence_intersection_eq_model, bind, Except.bind, List.length_map]
+  simp only [rawOcc, List.length_map, divF_nat, interCount]
+  by_cases h1 : p.length = 0
+  · simp [h1]
+  by_cases h2 : q.length = 0
+  · simp [h1, h2]
+  simp [h1, h2, pure, Except.pure]
+
+theorem layer1_eq_model (rp ep : Pattern.Pat) :
+    Gen.pattern.three_layer_FPR.compute_layer_1 (rawPat rp) (rawPat ep) = asMat rp.length ep.length (layer1 rp ep) := by
+  unfold Gen.pattern.three_layer_FPR.compute_layer_1 rawPat layer1
+  rw [fill2_raw rawOcc rawOcc rp ep _ (fun ro eo => do let pr ← firstLayerPR ro eo; return fMeasure pr.1 pr.2)]
+  intro p q
+  rw [first_layer_eq_model]
+
+theorem second_layer_eq_model (rp ep : Pattern.Pat) :
+    Gen.pattern.three_layer_FPR.compute_second_layer_PR (rawPat rp) (rawPat ep) = secondLayerPR rp ep := by
+  unfold Gen.pattern.three_layer_FPR.compute_second_layer_PR secondLayerPR
+  rw [layer1_eq_model]
+  unfold asMat
+  cases layer1 rp ep with
+  | error e => rfl
+  | ok F => exact prf_tail' rp.length ep.length F fun p q => pure (p, q)
+
+theorem layer2_eq_model (ref est : Pattern.Pats) :
+    Gen.pattern.three_layer_FPR.compute_layer_2 (raw ref) (raw est) = asMat ref.length est.length (layer2 ref est) := by
+  unfold Gen.pattern.three_layer_FPR.compute_layer_2 layer2
+  rw [raw_eq, raw_eq,
+    fill2_raw rawPat rawPat ref est _ (fun rp ep => do let pr ← secondLayerPR rp ep; return fMeasure pr.1 pr.2)]
+  intro p q
+  rw [second_layer_eq_model]
+
+theorem three_layer_FPR_eq_model (ref est : Pattern.Pats) :
+    Gen.pattern.three_layer_FPR (raw ref) (raw est) = threeLayerFPR ref est := by
+  unfold Gen.pattern.three_layer_FPR threeLayerFPR
+  simp only [validate_raw, n_onset_raw, layer2_eq_model]
+  rcases validate_cases ref est with hv | hv <;> rw [hv]
+  swap
+  · rfl
+  simp only [bind, Except.bind, pure, Except.pure, isZero]
+  by_cases h1 : nOnsetMidi ref = 0
+  · simp [h1]
+  by_cases h2 : nOnsetMidi est = 0
+  · simp [h1, h2]
+  have hz : (nOnsetMidi ref == 0 || nOnsetMidi est == 0) = false := by simp [h1, h2]
+  simp only [h1, h2, hz, decide_false, Bool.false_eq_true, if_false]
+  unfold asMat
+  cases layer2 ref est with
+  | error e => rfl
+  | ok S => exact prf_tail ref.length est.length S
+
+/-! ## first_n_three_layer_P, first_n_target_proportion_R -/
+
+theorem firstN_raw (est : Pattern.Pats) (n : Int) :
+    pySliceTo (raw est) (minInt (((raw est).length : Nat) : Int) n) = raw (firstN est n) := by
+  have hl : (raw est).length = est.length := by simp [raw]
+  have hm : minInt ((est.length : Nat) : Int) n = if (est.length : Int) ≤ n then (est.length : Int) else n := by
+    unfold minInt; split <;> split <;> omega
+  rw [hl, hm]
+  unfold firstN pySliceTo
+  simp only [raw, List.length_map]
+  split <;> split <;> simp only [List.map_take]
+
+theorem first_n_three_layer_P_eq_model (ref est : Pattern.Pats) (n : Int) :
+    Gen.pattern.first_n_three_layer_P (raw ref) (raw est) n = firstNThreeLayerP ref est n := by
+  unfold Gen.pattern.first_n_three_layer_P firstNThreeLayerP
+  simp only [validate_raw, n_onset_raw, firstN_raw, three_layer_FPR_eq_model]
+  rcases validate_cases ref est with hv | hv <;> rw [hv]
+  swap
+  · rfl
+  simp only [bind, Except.bind, pure, Except.pure, isZero]
+  by_cases h1 : nOnsetMidi ref = 0
+  · simp [h1]
+  by_cases h2 : nOnsetMidi est = 0
+  · simp [h1, h2]
+  have hz : (nOnsetMidi ref == 0 || nOnsetMidi est == 0) = false := by simp [h1, h2]
+  simp only [h1, h2, hz, decide_false, Bool.false_eq_true, if_false]
+
+theorem first_n_target_proportion_R_eq_model (ref est : Pattern.Pats) (n : Int) :
+    Gen.pattern.first_n_target_proportion_R (raw ref) (raw est) n = firstNTargetProportionR ref est n := by
+  unfold Gen.pattern.first_n_target_proportion_R firstNTargetProportionR
+  simp only [validate_raw, n_onset_raw, firstN_raw, establishment_FPR_eq_model]
+  rcases validate_cases ref est with hv | hv <;> rw [hv]
+  swap
+  · rfl
+  simp only [bind, Except.bind, pure, Except.pure, isZero]
+  by_cases h1 : nOnsetMidi ref = 0
+  · simp [h1]
+  by_cases h2 : nOnsetMidi est = 0
+  · simp [h1, h2]
+  have hz : (nOnsetMidi ref == 0 || nOnsetMidi est == 0) = false := by simp [h1, h2]
+  simp only [h1, h2, hz, decide_false, Bool.false_eq_true, if_false]
+  rfl
+
+/-! ## standard_FPR (nested loops with `break`, the translation test) -/
+
+theorem sameShape_raw (P Q : Pattern.Occ) (h : P.length = Q.length) :
+    sameShape (P.map rawPt) (Q.map rawPt) = true := by
+  unfold sameShape
+  simp only [List.length_map, h, beq_self_eq_true, Bool.true_and]
+  induction P generalizing Q with
+  | nil => simp
+  | cons p ps ih =>
+    cases Q with
+    | nil => simp at h
+    | cons q qs =>
+      simp only [List.map_cons, List.zipWith_cons_cons, List.all_cons]
+      rw [ih qs (by simpa using h)]
+      rfl
+
+/-- the rows of `P - Q` in the model's terms -/
+def subRows (P Q : Pattern.Occ) : List Point := List.zipWith (fun (p q : Point) => (p.1 - q.1, p.2 - q.2)) P Q
+
+theorem msub_raw (P Q : Pattern.Occ) (h : P.length = Q.length) :
+    msub (rawOcc P) (rawOcc Q) = .ok ((subRows P Q).map rawPt) := by
+  unfold msub rawOcc
+  rw [sameShape_raw P Q h]
+  simp only [if_true, subRows, List.zipWith_map, List.map_zipWith]
+  rfl
+
+theorem maxabs_raw (d : List Point) :
+    npMaxArr (PyPat.mabs (diff0 (d.map rawPt)))
+      = maxL ((List.zipWith (fun (a b : Point) => (b.1 - a.1, b.2 - a.2)) d d.tail).flatMap
+          fun x => [absR x.1, absR x.2]) := by
+  unfold npMaxArr PyPat.mabs diff0
+  congr 1
+  rw [← List.map_tail, List.zipWith_map, List.map_zipWith, List.flatMap_def, List.map_zipWith]
+  rfl
+
+theorem getItem0_raw (e : Pattern.Pat) : getItem0 (rawPat e) = (proto e).map rawOcc := by
+  cases e <;> rfl
+
+/-- the inner loop: any body that, on the prototype of an estimated pattern, breaks with `k + 1` on a match and goes
+    on with `k` otherwise -/
+theorem inner_loop (tol : Rat) (P : Pattern.Occ) (body : PyPat.Pat → Nat → Py (Step Nat))
+    (hb : ∀ e k, body (rawPat e) k = do
+      let Q ← proto e
+      let m ← protoMatch tol P Q
+      pure (if m then Step.brk (k + 1) else Step.next k))
+    (est : Pattern.Pats) (k : Nat) :
+    forLoop (raw est) k body = (matchAny tol P est).map fun m => if m then k + 1 else k := by
+  induction est with
+  | nil => rfl
+  | cons e es ih =>
+    rw [raw_eq, List.map_cons, forLoop, hb, ← raw_eq, matchAny]
+    cases proto e with
+    | error x => rfl
+    | ok Q =>
+      cases hm : protoMatch tol P Q with
+      | error x => simp [bind, Except.bind, hm, Except.map]
+      | ok m =>
+        cases m with
+        | true => simp [bind, Except.bind, hm, Except.map, pure, Except.pure]
+        | false =>
+          simp only [bind, Except.bind, hm, Except.map, pure, Except.pure, Bool.false_eq_true, if_false]
+          rw [ih]; rfl
+
+/-- the outer loop: any body that adds one for a reference prototype that matches some estimated prototype -/
+theorem outer_loop (tol : Rat) (est : Pattern.Pats) (body : PyPat.Pat → Nat → Py (Step Nat))
+    (hb : ∀ r k, body (rawPat r) k = do
+      let P ← proto r
+      let m ← matchAny tol P est
+      pure (Step.next (if m then k + 1 else k)))
+    (ref : Pattern.Pats) (k : Nat) :
+    forLoop (raw ref) k body = (countMatches tol ref est).map fun c => k + c := by
+  induction ref generalizing k with
+  | nil => rfl
+  | cons r rs ih =>
+    rw [raw_eq, List.map_cons, forLoop, hb, ← raw_eq, countMatches]
+    cases proto r with
+    | error x => rfl
+    | ok P =>
+      cases hm : matchAny tol P est with
+      | error x => simp [bind, Except.bind, hm, Except.map]
+      | ok m =>
+        simp only [bind, Except.bind, hm, pure, Except.pure]
+        rw [ih]
+        cases countMatches tol rs est with
+        | error x => rfl
+        | ok c =>
+          cases m <;> simp [Except.map]; omega
+
+theorem standard_FPR_eq_model (ref est : Pattern.Pats) (tol : Rat) :
+    Gen.pattern.standard_FPR (raw ref) (raw est) tol = standardFPR ref est tol := by
+  unfold Gen.pattern.standard_FPR standardFPR
+  simp only [validate_raw, n_onset_raw]
+  rcases validate_cases ref est with hv | hv <;> rw [hv]
+  swap
+  · rfl
+  simp only [bind, Except.bind, pure, Except.pure, isZero]
+  by_cases h1 : nOnsetMidi ref = 0
+  · simp [h1]
+  by_cases h2 : nOnsetMidi est = 0
+  · simp [h1, h2]
+  have hz : (nOnsetMidi ref == 0 || nOnsetMidi est == 0) = false := by simp [h1, h2]
+  simp only [h1, h2, hz, decide_false, Bool.false_eq_true, if_false]
+  rw [outer_loop tol est _ ?_ ref 0]
+  · have hl : ∀ x : Pattern.Pats, (raw x).length = x.length := fun x => by simp [raw]
+    cases countMatches tol ref est with
+    | error x => rfl
+    | ok c =>
+      simp only [Except.map, hl, divF_nat, Nat.zero_add]
+      by_cases he : est.length = 0
+      · simp [he, throw, throwThe, MonadExceptOf.throw]
+      by_cases hr : ref.length = 0
+      · simp [he, hr, throw, throwThe, MonadExceptOf.throw]
+      simp [he, hr]
+  · intro r k
+    rw [getItem0_raw]
+    cases proto r with
+    | error x => rfl
+    | ok P =>
+      simp only [Except.map, asarray]
+      rw [inner_loop tol P _ ?_ est k]
+      · simp only [bind, Except.bind, pure, Except.pure]
+        cases matchAny tol P est <;> rfl
+      · intro e k'
+        rw [getItem0_raw]
+        cases proto e with
+        | error x => rfl
+        | ok Q =>
+          simp only [Except.map, protoMatch, rawOcc, List.length_map, bind, Except.bind, pure, Except.pure]
+          by_cases hlen : P.length = Q.length
+          · have hm := msub_raw P Q hlen
+            simp only [rawOcc] at hm
+            simp only [hm, maxabs_raw, diffRows, subRows]
+            simp only [hlen, ne_eq, not_true_eq_false, decide_false, decide_true, Bool.true_and, if_false,
+              Bool.false_eq_true, decide_eq_true_eq]
+            by_cases h1 : Q.length = 1
+            · simp [h1]
+            · simp only [h1, if_false]
+              generalize maxL _ = mx
+              cases mx with
+              | error x => rfl
+              | ok v => by_cases hv : v < tol <;> simp [hv]
+          · simp [hlen]
+
 end Mir.C04.GenPattern
